@@ -74,7 +74,61 @@ func (a TAddr) key() string { return a.addrPort().String() }
 
 // ---- generator -----------------------------------------------------------------------------------
 
+// genTravChain: a long lookup. A chain of nodes, each closer to the target than the one before and
+// each naming its successor somewhere among 3..16 far contacts that never enter the result set, so
+// that the backlog of learned-but-unasked contacts grows with every step while the interesting contact
+// of each reply is a single entry named exactly once.
+func genTravChain(t *rapid.T) TravSc {
+	target := genRandID(t, "target")
+	sc := TravSc{Family: "general", Target: target[:], K: 1 + uniformInt(t, 12, "k"), Alpha: 1 + uniformInt(t, 4, "alpha"), DataFilter: "all"}
+	m := sc.K + 4 + uniformInt(t, 40, "chain.len")
+	pad := 3 + uniformInt(t, 14, "chain.pad")
+	addAddr := func(ip kit.Hex, id [20]byte, beh string) int {
+		sc.Addrs = append(sc.Addrs, TAddr{IP: ip, Port: 1, Behaviour: beh, RespID: id[:], Data: "string"})
+		sc.Listings = append(sc.Listings, TListing{Addr: len(sc.Addrs) - 1, ID: id[:]})
+		return len(sc.Listings) - 1
+	}
+	chain := make([]int, m)
+	for i := 0; i < m; i++ {
+		id := genRandID(t, "chain.id")
+		// shares exactly i+1 leading bits with the target: every chain node is closer than the one before
+		for b := 0; b <= i+1; b++ {
+			bit := target[b/8] >> (7 - uint(b%8)) & 1
+			if b == i+1 {
+				bit ^= 1
+			}
+			id[b/8] = id[b/8]&^(1<<(7-uint(b%8))) | bit<<(7-uint(b%8))
+		}
+		chain[i] = addAddr(kit.Hex{10, 9, byte(i >> 8), byte(i)}, id, "answer")
+	}
+	padBeh := pick(t, "chain.padbeh", "silent", "silent", "answer")
+	for i := 0; i < m; i++ {
+		succAt := uniformInt(t, pad+1, "chain.succat")
+		var nodes []int
+		for j := 0; j <= pad; j++ {
+			if j == succAt {
+				if i+1 < m {
+					nodes = append(nodes, chain[i+1])
+				}
+				continue
+			}
+			id := genRandID(t, "pad.id")
+			id[0] = id[0]&0x7f | (^target[0])&0x80 // differs from the target in the first bit: farther than every chain node
+			nodes = append(nodes, addAddr(kit.Hex{10, 8, byte(i), byte(j)}, id, padBeh))
+		}
+		sc.Addrs[sc.Listings[chain[i]].Addr].Nodes = nodes
+	}
+	sc.Seeds = []TSeed{{Listing: chain[0], WithID: rapid.Bool().Draw(t, "seed.withid")}}
+	for i, n := 0, uniformInt(t, 20, "nevents"); i < n; i++ {
+		sc.Events = append(sc.Events, TEvent{Kind: "complete", Pick: uniformInt(t, 16, "e.pick")})
+	}
+	return sc
+}
+
 func genTravGeneral(t *rapid.T, bias string) TravSc {
+	if uniformInt(t, 12, "chain") == 0 {
+		return genTravChain(t)
+	}
 	target := genID(t, "target")
 	sc := TravSc{Family: "general", Target: target[:], K: rapid.IntRange(1, 20).Draw(t, "k"), Alpha: rapid.IntRange(1, 16).Draw(t, "alpha")}
 	if rapid.IntRange(0, 3).Draw(t, "smallk") == 0 {
@@ -84,20 +138,28 @@ func genTravGeneral(t *rapid.T, bias string) TravSc {
 		sc.Alpha = rapid.IntRange(1, 3).Draw(t, "alpha.small")
 	}
 	na := rapid.IntRange(1, deep(t, 30)).Draw(t, "naddrs")
+	// one case in eight is a large response graph: hundreds of contacts, replies naming up to 30 each, so
+	// that the backlog of learned-but-unasked contacts grows far beyond K and Alpha
+	big := uniformInt(t, 8, "big") == 0
+	maxHost, maxNodes, maxEvents := 40, 10, 40
+	if big {
+		na = 60 + uniformInt(t, 240, "naddrs.big")
+		maxHost, maxNodes, maxEvents = 250, 30, 120
+	}
 	usedAddr := map[string]bool{}
 	for i := 0; i < na; i++ {
 		a := TAddr{Port: rapid.SampledFrom([]int{1, 2, 6881}).Draw(t, "a.port")}
 		if fam := rapid.IntRange(0, 5).Draw(t, "a.v6"); fam == 0 {
 			ip := make([]byte, 16)
-			ip[0], ip[1], ip[15] = 0x20, 0x01, byte(rapid.IntRange(1, 40).Draw(t, "a.host6"))
+			ip[0], ip[1], ip[15] = 0x20, 0x01, byte(rapid.IntRange(1, maxHost).Draw(t, "a.host6"))
 			a.IP = ip
 		} else if fam == 1 {
 			// an IPv4 address in its 16-byte (v4-mapped) form, as nodes6 entries and dual-stack sockets report it
 			ip := make([]byte, 16)
-			ip[10], ip[11], ip[12], ip[13], ip[14], ip[15] = 0xff, 0xff, 10, 0, byte(rapid.IntRange(0, 1).Draw(t, "a.net")), byte(rapid.IntRange(1, 40).Draw(t, "a.host"))
+			ip[10], ip[11], ip[12], ip[13], ip[14], ip[15] = 0xff, 0xff, 10, 0, byte(rapid.IntRange(0, 1).Draw(t, "a.net")), byte(rapid.IntRange(1, maxHost).Draw(t, "a.host"))
 			a.IP = ip
 		} else {
-			a.IP = kit.Hex{10, 0, byte(rapid.IntRange(0, 1).Draw(t, "a.net")), byte(rapid.IntRange(1, 40).Draw(t, "a.host"))}
+			a.IP = kit.Hex{10, 0, byte(rapid.IntRange(0, 1).Draw(t, "a.net")), byte(rapid.IntRange(1, maxHost).Draw(t, "a.host"))}
 		}
 		if usedAddr[a.key()] {
 			continue
@@ -142,7 +204,10 @@ func genTravGeneral(t *rapid.T, bias string) TravSc {
 		} else {
 			a.RespID = sc.Listings[own[rapid.IntRange(0, len(own)-1).Draw(t, "a.ownid")]].ID
 		}
-		nn := rapid.IntRange(0, 10).Draw(t, "a.nnodes")
+		nn := rapid.IntRange(0, maxNodes).Draw(t, "a.nnodes")
+		if big {
+			nn = uniformInt(t, maxNodes+1, "a.nnodes.big")
+		}
 		for j := 0; j < nn; j++ {
 			li := rapid.IntRange(0, len(sc.Listings)-1).Draw(t, "a.node")
 			if len(sc.Addrs[sc.Listings[li].Addr].IP) == 16 {
@@ -164,7 +229,7 @@ func genTravGeneral(t *rapid.T, bias string) TravSc {
 		return s
 	}
 	sc.Seeds = genSeeds("seed", 0, 6)
-	ne := rapid.IntRange(0, 40).Draw(t, "nevents")
+	ne := rapid.IntRange(0, maxEvents).Draw(t, "nevents")
 	for i := 0; i < ne; i++ {
 		var e TEvent
 		roll := rapid.IntRange(0, 19).Draw(t, "e.kind")
